@@ -49,7 +49,7 @@ ASSUMPTIONS = [
     "and for continuation only when the dataset model has no optimizer (its Adam state lives in the skipped dataset)",
     "single-threaded torch on CPU, integer seeds passed to every model; reference and original are separate builds from the same seed (C09 judges that determinism)",
 ]
-BUDGET = {"quick": {"soft_s": 100, "workers": 14}, "thorough": {"soft_s": 540, "workers": 14}}
+BUDGET = {"quick": {"soft_s": 300, "workers": 14}, "thorough": {"soft_s": 1200, "workers": 14}}
 MIN_EVALUATIONS = {"quick": 30, "thorough": 300}
 REQUIRED_COUNTERS = ["eval:twin_shares_state", "eval:obj_differs", "eval:probe_differs", "eval:iter_losses_differ", "eval:iter_lrs_differ", "eval:constraints_differ", "eval:num_iters_differs"]
 EXHAUSTIVE = {"quick": False, "thorough": False}
